@@ -135,7 +135,7 @@ func c07Check(c C07Case, rec *evid.Rec) error {
 }
 
 var c07Part = evid.Part[C07Case]{
-	Prop: "C07", Name: "walk", Quick: 4000, Thorough: 400000,
+	Prop: "C07", Name: "walk", Quick: 4000, Thorough: 1600000,
 	Rule:  "selector AST (all clause kinds, nested ≤5, constraints of DESIGN Appendix A) × block graph (≤5 blocks, shared/repeated links), compiled from its spec and through the builder package, WalkAdv and WalkMatching; non-trivial = ≥3 visits and (≥2 clause kinds, or a recursive edge actually followed, or a link crossed); distinct by (graph, selector)",
 	Gen:   func(t *rapid.T) C07Case { return genGraphSel(t, rapid.IntRange(1, 5).Draw(t, "seldepth")) },
 	Check: c07Check,
